@@ -6,6 +6,8 @@ reported as such.  usage: revert_check.py [sha...]"""
 import json, os, re, subprocess, sys
 VERIF = os.path.dirname(os.path.dirname(os.path.abspath(__file__)))
 WT = '/tmp/wt-revert'
+# earlier fix -> later fix touching the same lines
+STACKED = {'919fe8e': '2bfd7f7', 'e014a8e': '975810f'}
 
 
 def sh(cmd, cwd=None):
@@ -27,10 +29,13 @@ def main():
     try:
         for pid, sha, what in todo:
             rc, out = sh('git show %s -- desper | git apply -R' % sha, cwd=WT)
+            if rc != 0 and sha in STACKED:
+                # a later fix sits on top of this one in the same lines: revert both, later one first
+                sh('git reset -q --hard HEAD; git clean -fdq', cwd=WT)
+                rc, out = sh('git show %s -- desper | git apply -R && git show %s -- desper | git apply -R' % (STACKED[sha], sha), cwd=WT)
+                what = what + ' (reverted together with the later fix %s stacked on it)' % STACKED[sha]
             if rc != 0:
-                rc, out = sh('git show %s -- desper | git apply -R -3' % sha, cwd=WT)
-            if rc != 0:
-                sh('git checkout -- . && git reset -q --hard HEAD', cwd=WT)
+                sh('git reset -q --hard HEAD; git clean -fdq', cwd=WT)
                 results.append(dict(property=pid, commit=sha, outcome='revert does not apply on HEAD (later commits touched the same lines)'))
                 print(pid, sha, 'REVERT DOES NOT APPLY', flush=True)
                 continue
@@ -40,10 +45,10 @@ def main():
             clause = cl[0].split('clause ')[1].split(')')[0] if cl else ''
             results.append(dict(property=pid, commit=sha, tests=out_t.strip()[:20], check_exit=rc, clause=clause, what=what[:120]))
             print(pid, sha, 'tests:', out_t.strip()[:12], '| check exit', rc, clause, flush=True)
-            sh('git checkout -- . && git reset -q --hard HEAD', cwd=WT)
+            sh('git reset -q --hard HEAD; git clean -fdq', cwd=WT)
     finally:
         sh('git -C /repo worktree remove --force %s' % WT)
-    json.dump(results, open(os.path.join(VERIF, 'seeded', 'reverts.json'), 'w'), indent=1)
+    json.dump(results, open(os.path.join(VERIF, 'reverts.json'), 'w'), indent=1)
 
 
 if __name__ == '__main__':
